@@ -524,9 +524,9 @@ theorem remove_other (cs : Bool) (cells : List Cell) (s t : Nat) (h : t ≠ s) (
     exact removeGo_other s t h ..
 
 theorem remove_bound (cs : Bool) (cells : List Cell) (s : Nat) (b e : Int) (hb : PosBound cells)
-    (h0 : 0 ≤ b) (hbe : b ≤ e) : PosBound (remove cs cells s b e).1 := by
+    (h0 : 0 ≤ b) (hbe : e = maxI32 ∨ b ≤ e) : PosBound (remove cs cells s b e).1 := by
   have hg : PosBound (removeGo s b e (if e = maxI32 then 0 else b - e) cells).1 := by
-    apply removeGo_bound _ _ _ _ _ _ _ hb <;> split <;> omega
+    apply removeGo_bound _ _ _ _ _ _ _ hb <;> split <;> (try unfold maxI32 at *) <;> omega
   rcases remove_fst cs cells s b e with h1 | ⟨_, h1⟩
   · rw [h1]; exact hg
   · rw [h1]; exact rope_bound _ _ _ _ hg
